@@ -954,8 +954,10 @@ fn rand_cfg(rng: &mut Rng) -> Value {
         3 | 4 | 5 => {
             let ms = ["RC4", "AES128", "Identity"];
             let (sm, tm) = (*rng.pick(&ms), *rng.pick(&ms));
-            let mut cf = vec![json!(["F1", if sm == "Identity" { *rng.pick(&["RC4", "AES128"]) } else { sm }]),
-                              json!(["F2", if tm == "Identity" { *rng.pick(&["RC4", "AES128"]) } else { tm }])];
+            // an Identity default filter: the standard name /Identity, or an Identity filter under a custom name in CF
+            let (cs, ct) = (sm == "Identity" && rng.chance(1, 2), tm == "Identity" && rng.chance(1, 2));
+            let mut cf = vec![json!(["F1", if sm == "Identity" && !cs { *rng.pick(&["RC4", "AES128"]) } else { sm }]),
+                              json!(["F2", if tm == "Identity" && !ct { *rng.pick(&["RC4", "AES128"]) } else { tm }])];
             if rng.chance(1, 2) {
                 cf.push(json!(["Identity", "Identity"]));
             }
@@ -963,17 +965,18 @@ fn rand_cfg(rng: &mut Rng) -> Value {
                 cf.push(json!(["Other", *rng.pick(&ms)]));
             }
             json!({"V": 4, "R": 4, "klen": 128, "em": em, "cf": cf,
-                   "stmf": if sm == "Identity" { "Identity" } else { "F1" }, "strf": if tm == "Identity" { "Identity" } else { "F2" }})
+                   "stmf": if sm == "Identity" && !cs { "Identity" } else { "F1" }, "strf": if tm == "Identity" && !ct { "Identity" } else { "F2" }})
         }
         k => {
             let ms = ["AES256", "AES256", "Identity"];
             let (sm, tm) = (*rng.pick(&ms), *rng.pick(&ms));
-            let mut cf = vec![json!(["F1", "AES256"]), json!(["F2", "AES256"])];
+            let (cs, ct) = (sm == "Identity" && rng.chance(1, 2), tm == "Identity" && rng.chance(1, 2));
+            let mut cf = vec![json!(["F1", if cs { "Identity" } else { "AES256" }]), json!(["F2", if ct { "Identity" } else { "AES256" }])];
             if rng.chance(1, 2) {
                 cf.push(json!(["Identity", "Identity"]));
             }
             json!({"V": 5, "R": if k == 6 { 5 } else { 6 }, "klen": 256, "em": em, "cf": cf,
-                   "stmf": if sm == "Identity" { "Identity" } else { "F1" }, "strf": if tm == "Identity" { "Identity" } else { "F2" }})
+                   "stmf": if sm == "Identity" && !cs { "Identity" } else { "F1" }, "strf": if tm == "Identity" && !ct { "Identity" } else { "F2" }})
         }
     }
 }
@@ -1005,7 +1008,7 @@ fn rand_doc(rng: &mut Rng, cfg: &Value) -> Document {
     for (_, o) in doc.objects.iter_mut() {
         lengthen(o, rng);
     }
-    let names: Vec<String> = cfg["cf"].as_array().unwrap().iter().map(|p| p[0].as_str().unwrap().to_string()).chain(["Identity".to_string()]).collect();
+    let names: Vec<String> = cfg["cf"].as_array().unwrap().iter().map(|p| p[0].as_str().unwrap().to_string()).chain(["Identity".to_string(), "Missing".to_string()]).collect();
     let bin = |rng: &mut Rng| -> Vec<u8> { let n = *rng.pick(&[0usize, 1, 15, 16, 17, 32, 40, 100]); (0..n).map(|_| rng.byte()).collect() };
     // a stream whose dictionary holds strings
     if rng.chance(1, 2) {
@@ -1033,6 +1036,13 @@ fn rand_doc(rng: &mut Rng, cfg: &Value) -> Document {
     // streams with a Crypt filter
     for _ in 0..rng.below(3) {
         let mut d = Dictionary::new();
+        // (strings in the dictionary of a stream with a Crypt filter entry are strings like any other)
+        if rng.chance(1, 2) {
+            d.set("Info", long_string(rng));
+            if rng.chance(1, 3) {
+                d.set("Arr", Object::Array(vec![long_string(rng)]));
+            }
+        }
         let mut parms = Dictionary::new();
         parms.set("Type", Object::Name(b"CryptFilterDecodeParms".to_vec()));
         let n = rng.pick(&names).as_bytes().to_vec();
